@@ -105,6 +105,9 @@ func (w *wireServer) serve(c net.Conn) {
 		return
 	}
 	e.noteConsumed(got, req.Header.Get("Content-Type"))
+	if s.Texp {
+		time.Sleep(slowServerMs * time.Millisecond) // a slow server (see scriptedRT)
+	}
 	if s.TFault == "after" {
 		rst(c)
 		return
